@@ -284,6 +284,8 @@ def run_cases(prop, casefile, work, tag, timeout=3000):
             errors.append("harness rc=%s on %s: %s" % (rc, os.path.basename(outp), open(outp + ".err").read()[-2000:]))
     if cfg.get("model_input", "cases") == "impl":
         model_cmds = [([MODEL, prop, s + ".impl"], s + ".model") for s in shards]
+    elif cfg.get("model_input") == "both":
+        model_cmds = [([MODEL, prop, s, s + ".impl"], s + ".model") for s in shards]
     else:
         model_cmds = [([MODEL, prop, s], s + ".model") for s in shards]
     rcs = run_parallel(model_cmds, timeout, env)
@@ -349,9 +351,9 @@ def classify(prop, impl, model, mode):
                 res["diverge"].append((cid, "model checker: " + (rej[0] if rej else "no verdict")))
         else:
             m = model.get(cid)
-            if m is None:
+            if m is None and obs:
                 res["diverge"].append((cid, "model produced no output"))
-            elif m != obs:
+            elif m is not None and m != obs:
                 k = 0
                 while k < min(len(m), len(obs)) and m[k] == obs[k]:
                     k += 1
